@@ -589,6 +589,19 @@ pub fn gen_input(rng: &mut Rng) -> (Vec<u8>, &'static str) {
 }
 
 pub fn run(ctx: &mut Ctx) {
+    // --replay with a recorded input: run exactly that byte string through every entry point
+    if let Some(hexs) = ctx.replay.as_ref().and_then(|r| r.get("case")).and_then(|c| c.get("input_hex")).and_then(|h| h.as_str()) {
+        let full = ctx.replay.as_ref().and_then(|r| r.get("case")).and_then(|c| c.get("input_len")).and_then(|l| l.as_u64()).unwrap_or(0) as usize;
+        let input = crate::ev::unhex(hexs);
+        if input.len() == full {
+            #[allow(unused_mut, unused_variables)]
+            let mut rng = Rng::derive(ctx.seed, 0, 0);
+            println!("replay: running the recorded {}-byte input alone", input.len());
+            run_input(&mut ctx.obs, &input, "replay", true, &mut rng);
+            return;
+        }
+        println!("replay: recorded input was abbreviated; re-running the whole seeded workload");
+    }
     ctx.rule = "a case is one byte string run through every decoding entry point (stream, header, type-31, RDA status, VCP, clutter map, contents of sampled or all 256 type codes; bodies also at offset 28) and, for every type-31 that decodes, radial()/into_radial(); \
 trivial = shorter than a message header; distinct = distinct input contents (FNV-1a); families: prefixes of valid streams/bodies, 1-8 bit/byte/field mutations biased to headers, field-directed extremes (block count 0/65535, pointers backwards/overlapping/self-referential/beyond end, 40-symbol and invalid-UTF-8 block names, gates 65535, word size 0..255, cut count 52..65535, zone count 65535, 255+ segments), random bytes; \
 verdict monitors: panic hook, reader work <= 64*(plain-walk work + n) + 1 MiB (termination as bounded progress), allocator peak <= 64 MiB + 64*n"
